@@ -175,3 +175,54 @@ Definition loop_put_result_continues (v : Z) : bool :=
 Definition loop_put_result_next (v : Z) : Z :=
   (v - 1).
 
+(* source:
+   attempts -= 1
+   read_offset = start_offset + current_offset
+   read_offset = read_offset if read_offset > 0 else 0
+   read_size = LogFileDateSinceSeeker.SEEK_HORIZON
+   if start_offset + current_offset <= 0:
+       read_size = read_size + (start_offset + current_offset)
+   log.debug('seeking to %s', read_offset)
+   self.file.seek(read_offset)
+   chunk = self.file.read(read_size)
+*)
+Definition ftr_window (start : Z) (cur : Z) (attempts : Z) (H : Z) : Z * Z :=
+  (let v_attempts := (attempts - 1) in (let v_read_offset := (start + cur) in (let v_read_offset := (if (0 <? v_read_offset) then v_read_offset else 0) in (let v_read_size := H in (if ((start + cur) <=? 0) then (let v_read_size := (v_read_size + (start + cur)) in (v_read_offset, v_read_size)) else (v_read_offset, v_read_size)))))).
+
+(* source:
+   return SearchState(status=FindTokenStatus.FOUND, offset=read_offset + chunk_offset)
+*)
+Definition ftr_found (ro : Z) (i : Z) : Z :=
+  (ro + i).
+
+(* source:
+   current_offset = current_offset - len(chunk)
+*)
+Definition ftr_next_cur (cur : Z) (n : Z) : Z :=
+  (cur - n).
+
+(* source:
+   if read_offset == 0:
+       return SearchState(status=FindTokenStatus.REACHED_EOF, offset=0)
+*)
+Definition ftr_stop (ro : Z) : bool :=
+  (ro =? 0).
+
+(* source:
+   chunk = self.file.read(LogFileDateSinceSeeker.SEEK_HORIZON)
+*)
+Definition ft_read_size (H : Z) : Z :=
+  H.
+
+(* source:
+   start_offset + current_offset + chunk_offset
+*)
+Definition ft_found (start : Z) (cur : Z) (i : Z) : Z :=
+  ((start + cur) + i).
+
+(* source:
+   current_offset = current_offset + len(chunk)
+*)
+Definition ft_next_cur (cur : Z) (n : Z) : Z :=
+  (cur + n).
+
